@@ -421,6 +421,14 @@ func templateCases() []CacheCase {
 			}
 		}
 	}
+	// ... and: the matched set is emptied, the tasks run (forced or not) on the empty set, and the very
+	// same files come back
+	for _, mid := range []Step{run([]string{"A", "B"}, false, nil), run([]string{"A", "B"}, true, nil), run([]string{"B"}, true, nil), run([]string{"B"}, false, map[string]int{"B": 0})} {
+		for _, fin := range final {
+			out = append(out, CacheCase{Tasks: mix, Init: map[string]string{"b.txt": "0", "s1.c": "0", "s2.c": "0"}, Steps: []Step{
+				run([]string{"A", "B"}, false, nil), del("s1.c"), del("s2.c"), mid, wr("s1.c", "0"), wr("s2.c", "0"), fin, fin}})
+		}
+	}
 	// a dependency that is a symbolic link: the target is edited, not the link
 	linked := []TaskSpec{{Name: "A", Files: []string{"ln.txt"}, NCmds: 1}, {Name: "B", Globs: []string{"l*.txt"}, NCmds: 1}}
 	for _, fin := range final {
